@@ -121,6 +121,19 @@ def base_records(seed, want=4):
         run = TLCRun(s["name"] + ".c18", job["root"], job["defs"], job["cfg"], mode="sim",
                      sim_num=40, sim_depth=5, seed=seed)
         seen = set()
+        refs, plain = [], []
+
+        def references_items(cfg):
+            """the transforms name items of the array-type dimension (these are the
+            references the library rewrites in the caller's dict)"""
+            for side, di in (("rows", ri), ("cols", ci)):
+                if di is None or s["dims"][di]["kind"] not in ("mr", "caitems"):
+                    continue
+                dc = cfg[side]
+                if dc["order"]["ids"] or dc["order"]["top"] or dc["order"]["bottom"] or dc["hide"]:
+                    return True
+            return False
+
         try:
             for rec in run:
                 cfg = s["configs"][rec["ci"] - 1]
@@ -128,17 +141,42 @@ def base_records(seed, want=4):
                 if rec["nresp"] < 3 or not xf or rec["ci"] in seen:
                     continue
                 seen.add(rec["ci"])
-                out.append((job["scn"], rec, cfg))
-                if len(seen) >= want:
+                (refs if references_items(cfg) else plain).append((job["scn"], rec, cfg))
+                if len(refs) >= want:
                     run.proc.kill()
                     break
         finally:
             run.close()
+        out.extend((refs + plain)[:want])
     return out
 
 
 def pristine(scn, rec, cfg):
-    return envelope.build_response(scn, rec, cfg), configs.transforms_dict(cfg)
+    xf = configs.transforms_dict(cfg)
+    if cfg.get("raw_transforms"):
+        xf = copy.deepcopy(cfg["raw_transforms"])
+    return envelope.build_response(scn, rec, cfg), xf
+
+
+def rejected_smoother_record(seed):
+    """a 2-D response over a categorical-date columns dimension with a smoothing transform the
+    library rejects: every read of a smoothed measure must raise, however often it is read"""
+    from scenarios import cat, scenario
+    s = scenario("cat_x_catdate.badsmoother", [cat("A", 3), cat("B", 3, date=True)])
+    job = runner.make_job(dict(s, max_resp=3), "c07", ("replay_basic", "replay"), mode="sim",
+                          seed=seed, sim_num=10, sim_depth=5, sim_max_resp=4, prop_id="C18")
+    run = TLCRun(s["name"] + ".c18", job["root"], job["defs"], job["cfg"], mode="sim",
+                 sim_num=10, sim_depth=5, seed=seed)
+    best = None
+    try:
+        for rec in run:
+            if best is None or rec["nresp"] > best["nresp"]:
+                best = rec
+    finally:
+        run.close()
+    cfg = dict(configs.DEFAULT, raw_transforms={"columns_dimension": {
+        "smoother": {"function": "two_sided_moving_avg", "window": 2}}})
+    return (job["scn"], best, cfg) if best is not None else None
 
 
 # --------------------------------------------------------------------- Session schedules
@@ -408,7 +446,8 @@ def run_check(tier, seed, t0):
             cache_traces.append({"id": len(cache_traces) + 1, "ev": rec.events, "src": "session"})
     # Direction B(i): long random schedules over every public property
     n_random = 0
-    for (s, r, c) in triples:
+    bad = rejected_smoother_record(seed)
+    for (s, r, c) in triples + ([bad] if bad else []):
         for rep in range(2 if tier == "quick" else 10):
             rec = Recorder()
             if hook_ok:
@@ -560,12 +599,16 @@ def run_check(tier, seed, t0):
     known_lines = []
     cx = unfenced_counterexample(seed)
     if cx is not None:
-        (s1, r1, c1) = triples[0]
-        other = [t for t in triples if t[0]["name"] != s1["name"]] or triples[1:]
-        (s2, r2, c2) = other[0]
-        resp0 = {1: pristine(s1, r1, c1)[0], 2: pristine(s2, r2, c2)[0]}
-        xf0 = {1: pristine(s1, r1, c1)[1], 2: pristine(s2, r2, c2)[1]}
-        problems, _ = replay_behaviour(cx, resp0, xf0)
+        # replayed on pairs of base records over DIFFERENT responses until one of them shows
+        # the loss (it needs transforms that reference items the two responses name differently)
+        problems = []
+        pairs = [(a, b) for a in triples for b in triples if a[0]["name"] != b[0]["name"]]
+        for (s1, r1, c1), (s2, r2, c2) in pairs[:12]:
+            resp0 = {1: pristine(s1, r1, c1)[0], 2: pristine(s2, r2, c2)[0]}
+            xf0 = {1: pristine(s1, r1, c1)[1], 2: pristine(s2, r2, c2)[1]}
+            problems, _ = replay_behaviour(cx, resp0, xf0)
+            if problems:
+                break
         for p in problems:
             mismatches.append((Mismatch(prop_id, None,
                                         "transforms object shared between cubes of DIFFERENT responses: "
